@@ -89,7 +89,7 @@ def HY_full(spec, v):
     full = dict(v)
     for fn, ft, d in spec[2]:
         if fn not in full and d is not None:
-            full[fn] = d
+            full[fn] = HY.dval(d)
         if HY.is_h(ft) and fn in full:
             full[fn] = HY_full(ft, full[fn])
     return full
@@ -181,7 +181,9 @@ def sc_c18(env, spec, v, cfg):
             fn, ft = nested[st[1] % len(nested)]
             ov = variant_of(ft, cur[fn], stepno + 1)
             where = st[2]
-            ob = buf if where == "same" else env.fresh(4096, tag=f"o{stepno}")
+            # the assigned object lives at an ARBITRARY offset of an arbitrary other buffer (it may coincide
+            # numerically with the offset of the field it is assigned to)
+            ob = buf if where == "same" else env.buffer(tag=f"o{stepno}", N=1, alignment=1, roomy=4096)
             other = HY.make_h(ft, ov, _buffer=ob)
             oexp = HY.expected(ft, ov)
             m = env.mark()
@@ -230,7 +232,7 @@ def sc_c18(env, spec, v, cfg):
                         HY.hset(rt, other, p2, nv)
                         cur = HY.vset(cur, (fn,) + p2, nv)
             else:
-                fb = env.fresh(4096, tag=f"x{stepno}")
+                fb = env.buffer(tag=f"x{stepno}", N=1, alignment=1, roomy=4096)
                 other = HY.make_h(rt, ov, _buffer=fb)
                 raised = False
                 try:
@@ -240,6 +242,24 @@ def sc_c18(env, spec, v, cfg):
                         raise
                     raised = True
                 env.check(raised, what + f": assigning an object of another buffer to reference field {fn} is refused")
+        elif st[0] == "assign_ref_plain" and refs:
+            # a plain (not dressed) value assigned to a reference field: the struct view of an object in the same
+            # buffer, or None -- the attribute must follow the buffer, not a dressed object bound earlier
+            fn, rt = refs[st[1] % len(refs)]
+            if st[2] == "none":
+                ok, _ = _guard(env, what + f" of None to reference field {fn}", setattr, h, HY.pyname(spec, fn), None)
+                if ok:
+                    cur = dict(cur, **{fn: None})
+            else:
+                ov = strip_refs(rt, second_value(rt, stepno + 3))
+                other = HY.make_h(rt, ov, _buffer=buf)
+                ok, _ = _guard(env, what + f" of a struct view in the same buffer to reference field {fn}", setattr, h, HY.pyname(spec, fn), other._xobject)
+                if ok:
+                    cur = dict(cur, **{fn: HY_full(rt, ov)})
+                    raw = getattr(h._xobject, fn)
+                    env.check(raw is not None, what + ": the reference in the buffer is set")
+                    if raw is not None:
+                        env.check(env.eq(raw._offset, other._xobject._offset), what + ": the reference in the buffer denotes the assigned object (same offset)")
         elif st[0] == "copy":
             where = st[1]
             m = env.mark()
@@ -348,7 +368,9 @@ def with_defaults(spec, v, mode):
         if HY.is_h(ft):
             out[fn] = with_defaults(ft, v[fn], "all" if mode == "nested" else mode)
         elif d is not None and mode == "all":
-            out[fn] = d
+            out[fn] = HY.dval(d)
+        elif d is not None and mode == "bcast" and ft[0] == "array":
+            out[fn] = list(d[:1])  # equal to the default only if compared by broadcasting
     return out
 
 
@@ -362,7 +384,8 @@ def _omitted_ok(env, spec, v, d, where=""):
         if HY.is_h(ft):
             if isinstance(d.get(pn), dict):
                 ok = _omitted_ok(env, ft, v[fn], d[pn], where + pn + ".") and ok
-        elif dflt is not None and ft[0] == "scalar":
+        elif dflt is not None and ft[0] in ("scalar", "array"):
+            dflt = HY.dval(dflt)
             if V.same(V.expected(ft, v.get(fn, dflt)), V.expected(ft, dflt)):
                 ok = env.check(pn not in d, f"C19 a field equal to its declared default is omitted from the dictionary ({where}{pn})") and ok
     return ok
@@ -464,6 +487,7 @@ def sc_c20h(env, spec, v, cfg):
         env.check(d is None, "C20 the underlying buffer data of the unpickled hybrid object agree with its attributes" + (f": {d}" if d else ""))
     hread_ok(env, spec, h, exp, "C20 the original hybrid object is unaffected by writes through the unpickled one")
     hread_ok(env, spec, c2, exp2, "C20 the second unpickled hybrid object is unaffected by writes through the first")
+    wmode.allocator_state_ok(env, c1._buffer, [(c._xobject._offset, c._xobject._size) for c in (c1, c2)] + [(cn._offset, cn._size)], "C20")
     try:
         extra = NEIGHBOUR(NB_R, _buffer=c1._buffer)
     except BaseException as ex:
